@@ -74,7 +74,7 @@ func refDecode(codecName string, b []byte) ref.Result {
 func parseVia(c *run.C, cd *codec.Codec, doc []byte, sizes []int, entry int, eofWithData bool) parseOutcome {
 	var out parseOutcome
 	m := mon.NewMonitor()
-	m.Budget = 64 + 16*len(doc) + 4096
+	m.Budget = 64 + 16*len(doc)
 	what := fmt.Sprintf("%s.entry%d", cd.Name, entry)
 	ok, _ := guardCall(c, what, func() int { return m.NEvents }, func() {
 		switch entry {
@@ -187,6 +187,12 @@ func c02Check(c *run.C, cd *codec.Codec, d gen.Doc, schedules [][]int) {
 	doc := d.Bytes
 	whole := parseVia(c, cd, doc, nil, 0, false)
 	if !whole.ok {
+		return
+	}
+	if whole.err == mon.ErrBudget {
+		// event amplification (zero-width typed UBJSON containers) is C03's
+		// business; replaying it under thousands of schedules only burns time
+		c.Observe("docs_skipped_amplification", 1)
 		return
 	}
 	valid := whole.err == nil
